@@ -125,27 +125,27 @@ def lastFlag : Wfs.Ret → Int
 
 def cfgLoc : Loc := .glob "CONFIG_RCU_EMIT_LEGACY_MB"
 
-def PopI (s : Nat) (stv : Val) (bl cfg : Int) (e : Env) (i : List Val) (l : LState) : Prop :=
+def PopI (P : Val → Prop) (s : Nat) (stv : Val) (bl cfg : Int) (e : Env) (i : List Val) (l : LState) : Prop :=
   e.vars "s" = some (.ptr (.obj s)) ∧ e.vars "state" = some stv ∧ e.vars "blocking" = some (.int bl) ∧
   e.priv cfgLoc = some (.int cfg) ∧ (∀ st, stv = .ptr st → e.priv st = some (.int 0)) ∧
-  (∀ v ∈ i, (dec v).isSome) ∧ l.pc = .popLd (bl != 0)
+  (∀ v ∈ i, P v) ∧ l.pc = .popLd (bl != 0)
 
 def PopR (stv : Val) (c : Ctl) (e : Env) (_ : List Val) (l : LState) : Prop :=
   c = .blocked ∨ c = .fuel ∨ (c = .ret (some (retV l.ret)) ∧ l.pc = .idle ∧
     ∀ st, stv = .ptr st → e.priv st = some (.int (lastFlag l.ret)))
 
 /-- the state in which the IR run fails: at the head load, the oracle hands NULL -/
-def PopBad (_ : Env) (i : List Val) (l : LState) : Prop :=
-  (∃ b, l.pc = .popLd b) ∧ ∃ rest, i = .int 0 :: rest
+def PopBad (P : Val → Prop) (_ : Env) (i : List Val) (l : LState) : Prop :=
+  (∃ b, l.pc = .popLd b) ∧ (∃ rest, i = .int 0 :: rest) ∧ P (.int 0)
 
-theorem pop_body (fuel s : Nat) (stv : Val) (bl cfg : Int)
+theorem pop_body (P : Val → Prop) (hP : ∀ v, P v → (dec v).isSome) (fuel s : Nat) (stv : Val) (bl cfg : Int)
     (hst : stv = .int 0 ∨ ∃ st, stv = .ptr st ∧ st ≠ cfgLoc)
     (body : Stmt) (hb : firstLoop Gen.Src.«___cds_wfs_pop» = some body)
-    (e : Env) (i : List Val) (l : LState) (hI : PopI s stv bl cfg e i l) :
-    match exec fuel body e i with
-    | .ok o => ∃ ls', lr .pop s l o.events = some ls' ∧
-        (if o.ctl.goesOn then PopI s stv bl cfg o.env o.inp ls' else PopR stv o.ctl o.env o.inp ls')
-    | .error _ => PopBad e i l := by
+    (e : Env) (i : List Val) (l : LState) (hI : PopI P s stv bl cfg e i l) :
+    Outcome (exec fuel body e i)
+      (fun o => ∃ ls', lr .pop s l o.events = some ls' ∧
+        (if o.ctl.goesOn then PopI P s stv bl cfg o.env o.inp ls' else PopR stv o.ctl o.env o.inp ls'))
+      (PopBad P e i l) := by
   simp only [Gen.Src.«___cds_wfs_pop», block, firstLoop, Option.some.injEq] at hb
   subst hb
   obtain ⟨h1, h2, h3, h4, h5, h6, h7⟩ := hI
@@ -153,9 +153,9 @@ theorem pop_body (fuel s : Nat) (stv : Val) (bl cfg : Int)
   cases i with
   | nil => sexec; simp [lr, lrun, Ctl.goesOn, PopR]
   | cons v rest =>
-    obtain ⟨k, hk⟩ := Option.isSome_iff_exists.mp (h6 v (by simp))
+    obtain ⟨k, hk⟩ := Option.isSome_iff_exists.mp (hP v (h6 v (by simp)))
     have hv := enc_dec hk; subst hv
-    have h6' : ∀ v ∈ rest, (dec v).isSome := fun v hv => h6 v (by simp [hv])
+    have h6' : ∀ v ∈ rest, P v := fun v hv => h6 v (by simp [hv])
     by_cases hkE : k = Wfs.END
     · subst hkE
       sexec [Gen.Src.«___cds_wfs_end»]
@@ -170,7 +170,7 @@ theorem pop_body (fuel s : Nat) (stv : Val) (bl cfg : Int)
         · sexec
           simp [lr, lrun, lstep, absEv, Ctl.goesOn, PopR, h7, hkE]
         · sexec
-          exact ⟨⟨_, h7⟩, rest, rfl⟩
+          exact ⟨⟨_, h7⟩, ⟨rest, rfl⟩, h6 _ (by simp [enc])⟩
       · have hnode : Wfs.isNode k := ⟨hk0, hkE⟩
         have hek := enc_node hnode
         sexec [Gen.Src.«___cds_wfs_end»]
@@ -178,12 +178,12 @@ theorem pop_body (fuel s : Nat) (stv : Val) (bl cfg : Int)
         obtain ⟨o, rfl, ls1, hl1, hcase⟩ : ∃ o, r = .ok o ∧
             ∃ ls', lr .pop s ⟨.popSync (bl != 0) k, l.ret⟩ o.events = some ls' ∧
               (o.ctl = .fuel ∨ o.ctl = .blocked ∨
-               (o.env.priv = e.priv ∧ (∀ v ∈ o.inp, (dec v).isSome) ∧
+               (o.env.priv = e.priv ∧ (∀ v ∈ o.inp, P v) ∧
                  ((o.ctl = .ret (some (.int (-1))) ∧ bl = 0 ∧ ls' = ⟨.idle, .wouldblock⟩) ∨
                   (∃ nx, nx ≠ 0 ∧ o.ctl = .ret (some (enc nx)) ∧
                     ls' = ⟨.popCas (bl != 0) k nx, l.ret⟩)))) := by
           rw [← hE]
-          exact sync_next_spec (fun v => (dec v).isSome) (fun _ h => h) fuel _ _ s k bl
+          exact sync_next_spec P hP fuel _ _ s k bl
             ⟨.popSync (bl != 0) k, l.ret⟩ (by simp) (by simp) hnode rfl h6'
         rcases o with ⟨oev, ⟨ovars, opriv⟩, oinp, octl⟩
         simp only at hcase
@@ -208,9 +208,9 @@ theorem pop_body (fuel s : Nat) (stv : Val) (bl cfg : Int)
           cases oinp with
           | nil => sexec; simp [Ctl.goesOn, PopR]
           | cons x rest3 =>
-            obtain ⟨cur, hcur⟩ := Option.isSome_iff_exists.mp (hoi x (by simp))
+            obtain ⟨cur, hcur⟩ := Option.isSome_iff_exists.mp (hP x (hoi x (by simp)))
             have hx := enc_dec hcur; subst hx
-            have hoi' : ∀ v ∈ rest3, (dec v).isSome := fun v hv => hoi v (by simp [hv])
+            have hoi' : ∀ v ∈ rest3, P v := fun v hv => hoi v (by simp [hv])
             have hcmp : (enc cur = .ptr (.obj k)) ↔ cur = k := by rw [← hek]; simp
             by_cases hch : cur = k
             · subst hch
@@ -220,7 +220,7 @@ theorem pop_body (fuel s : Nat) (stv : Val) (bl cfg : Int)
                   by_cases hc : cfg = 0 <;> sexec <;>
                     simp [Ctl.goesOn, PopR, hcas _ cur _ (dec_node hnode), lstep, retV, lastFlag, lr_nil, lr_fence, hek]
                 · by_cases hc : cfg = 0 <;> sexec <;>
-                    simp [Ctl.goesOn, PopR, hcas _ cur _ (dec_node hnode), lstep, retV, lastFlag, lr_nil, lr_fence, hek, hnE]
+                    simp [Ctl.goesOn, PopR, hcas _ cur _ (dec_node hnode), lstep, retV, lastFlag, lr_nil, lr_fence, hek]
               · have hstne' : ¬ Loc.glob "CONFIG_RCU_EMIT_LEGACY_MB" = st := fun h => hstne (by simp [cfgLoc, h])
                 have h5s := h5 st rfl
                 by_cases hnE : nx = Wfs.END
@@ -233,9 +233,110 @@ theorem pop_body (fuel s : Nat) (stv : Val) (bl cfg : Int)
             · by_cases hbl : bl = 0
               · subst hbl
                 simp only [bne_self_eq_false] at hl1 hpre hcas
-                sexec; simp [Ctl.goesOn, PopR, hcas _ cur _ (dec_enc cur), lstep, hch, retV, lastFlag, lr_nil]
+                sexec; simp [Ctl.goesOn, PopR, lstep, hch, retV, lastFlag, lr_nil]
                 exact h5
-              · sexec; simp [Ctl.goesOn, PopI, hcas _ cur _ (dec_enc cur), lstep, hch, hbl, lr_nil, h1, h2, h3, cfgLoc, h4]
+              · sexec; simp [Ctl.goesOn, PopI, lstep, hch, hbl, lr_nil, h1, h2, h3, cfgLoc, h4]
                 exact ⟨h5, hoi'⟩
+
+def PopOK (s : Nat) (stv : Val) (ls : LState) (out : Out) : Prop :=
+  ∃ evs ls', out.events = [] ++ evs ∧ lr .pop s ls evs = some ls' ∧
+    (out.ctl = .fuel ∨ ∃ c, c.goesOn = false ∧ PopR stv c out.env out.inp ls' ∧ out.ctl = c.afterLoop)
+
+def PopErr (P : Val → Prop) (s : Nat) (ls : LState) : Prop :=
+  ∃ evs ls' env' inp', lr .pop s ls evs = some ls' ∧ PopBad P env' inp' ls'
+
+theorem pop_loop (P : Val → Prop) (hP : ∀ v, P v → (dec v).isSome) (fuel s : Nat) (stv : Val) (bl cfg : Int)
+    (hst : stv = .int 0 ∨ ∃ st, stv = .ptr st ∧ st ≠ cfgLoc)
+    (body : Stmt) (hb : firstLoop Gen.Src.«___cds_wfs_pop» = some body)
+    (n : Nat) (e : Env) (i : List Val) (l : LState) (hI : PopI P s stv bl cfg e i l) :
+    Outcome (iterate (exec fuel body) n e i []) (PopOK s stv l) (PopErr P s l) :=
+  iterate_inv_gen (lr .pop s) (lr_nil _ _) (lr_append _ _) _ (PopI P s stv bl cfg) (PopR stv) (PopBad P)
+    (fun e i l => pop_body P hP fuel s stv bl cfg hst body hb e i l) n e i l [] hI
+
+/-- `___cds_wfs_pop(u_stack = s, state = stv, blocking = bl)` from L2's `popLd (bl ≠ 0)` (i.e. after `popBegin`).
+`.ok`: the events are accepted by the local automaton, a returned value is L2's `ret`, and `*state` (if `state` is
+non-NULL) is `CDS_WFS_STATE_LAST` iff L2 reports `last`.  `.error` only if the oracle handed NULL for a load of
+`s->head` (see the file header); in particular never when NULL does not occur in the oracle at such a position. -/
+theorem pop_refines (fuel : Nat) (env : Env) (inp : List Val) (s : Nat) (stv : Val) (bl cfg : Int) (ls : LState)
+    (hs : env.vars "u_stack" = some (.ptr (.obj s))) (hstv : env.vars "state" = some stv)
+    (hblv : env.vars "blocking" = some (.int bl))
+    (hst : stv = .int 0 ∨ ∃ st, stv = .ptr st ∧ st ≠ cfgLoc)
+    (hcfg : env.priv cfgLoc = some (.int cfg))
+    (hpc : ls.pc = .popLd (bl != 0)) (hinp : ∀ v ∈ inp, (dec v).isSome) :
+    Outcome (exec fuel Gen.Src.«___cds_wfs_pop» env inp)
+      (fun out => ∃ ls', lr .pop s ls out.events = some ls' ∧ Done out ls' ∧
+        (∀ st r, stv = .ptr st → out.ctl = .ret r → out.env.priv st = some (.int (lastFlag ls'.ret))))
+      (Val.int 0 ∈ inp ∧ ∃ evs ls' b, lr .pop s ls evs = some ls' ∧ ls'.pc = .popLd b) := by
+  have hP : ∀ v, ((dec v).isSome ∧ v ∈ inp) → (dec v).isSome := fun _ h => h.1
+  have hinp' : ∀ v ∈ inp, ((dec v).isSome ∧ v ∈ inp) := fun v hv => ⟨hinp v hv, hv⟩
+  have hcfg' := hcfg
+  simp only [cfgLoc] at hcfg'
+  rcases hst with rfl | ⟨st, rfl, hstne⟩
+  · sexec [Gen.Src.«___cds_wfs_pop»]
+    generalize hE : iterate _ _ _ _ _ = r
+    have key : Outcome r (PopOK s (.int 0) ls) (PopErr (fun v => (dec v).isSome ∧ v ∈ inp) s ls) := by
+      rw [← hE]
+      exact pop_loop _ hP fuel s (.int 0) bl cfg (.inl rfl) _
+        (by simp [Gen.Src.«___cds_wfs_pop», block, firstLoop]) fuel _ _ ls
+        (by sexec [PopI, cfgLoc]; exact hinp')
+    cases r with
+    | error err =>
+      rw [Outcome_error] at key ⊢
+      unfold PopErr PopBad at key
+      obtain ⟨evs, ls', _, _, hl, ⟨b, hb⟩, _, _, hmem⟩ := key
+      refine ⟨hmem, evs, ls', hl, ?_⟩
+      cases b
+      · exact .inl hb
+      · exact .inr hb
+    | ok o =>
+      simp only [Outcome_ok, PopOK, List.nil_append] at key
+      obtain ⟨evs, ls', hev, hl, hfin⟩ := key
+      rcases hfin with hf | ⟨c, -, rfl | rfl | ⟨rfl, hidle, hstw⟩, hc⟩
+      · sexec; simp [Done]
+      · simp only [Ctl.afterLoop] at hc; sexec; simp [Done]
+      · simp only [Ctl.afterLoop] at hc; sexec; simp [Done]
+      · simp only [Ctl.afterLoop] at hc; sexec; simp [Done, hidle]
+  · have hstne' : ¬ Loc.glob "CONFIG_RCU_EMIT_LEGACY_MB" = st := fun h => hstne (by simp [cfgLoc, h])
+    sexec [Gen.Src.«___cds_wfs_pop»]
+    generalize hE : iterate _ _ _ _ _ = r
+    have key : Outcome r (PopOK s (.ptr st) ls) (PopErr (fun v => (dec v).isSome ∧ v ∈ inp) s ls) := by
+      rw [← hE]
+      exact pop_loop _ hP fuel s (.ptr st) bl cfg (.inr ⟨st, rfl, hstne⟩) _
+        (by simp [Gen.Src.«___cds_wfs_pop», block, firstLoop]) fuel _ _ ls
+        (by sexec [PopI, cfgLoc]; exact hinp')
+    cases r with
+    | error err =>
+      rw [Outcome_error] at key ⊢
+      unfold PopErr PopBad at key
+      obtain ⟨evs, ls', _, _, hl, ⟨b, hb⟩, _, _, hmem⟩ := key
+      refine ⟨hmem, evs, ls', hl, ?_⟩
+      cases b
+      · exact .inl hb
+      · exact .inr hb
+    | ok o =>
+      simp only [Outcome_ok, PopOK, List.nil_append] at key
+      obtain ⟨evs, ls', hev, hl, hfin⟩ := key
+      rcases hfin with hf | ⟨c, -, rfl | rfl | ⟨rfl, hidle, hstw⟩, hc⟩
+      · sexec; simp [Done]
+      · simp only [Ctl.afterLoop] at hc; sexec; simp [Done]
+      · simp only [Ctl.afterLoop] at hc; sexec; simp [Done]
+      · simp only [Ctl.afterLoop] at hc; sexec; simp [Done, hidle]
+
+/-- no failure for oracles without NULL at all (no busy-waiting is exercised then); the general case is `pop_refines` -/
+theorem pop_refines_total (fuel : Nat) (env : Env) (inp : List Val) (s : Nat) (stv : Val) (bl cfg : Int) (ls : LState)
+    (hs : env.vars "u_stack" = some (.ptr (.obj s))) (hstv : env.vars "state" = some stv)
+    (hblv : env.vars "blocking" = some (.int bl))
+    (hst : stv = .int 0 ∨ ∃ st, stv = .ptr st ∧ st ≠ cfgLoc)
+    (hcfg : env.priv cfgLoc = some (.int cfg))
+    (hpc : ls.pc = .popLd (bl != 0)) (hinp : ∀ v ∈ inp, (dec v).isSome) (hnn : Val.int 0 ∉ inp) :
+    ∃ out, exec fuel Gen.Src.«___cds_wfs_pop» env inp = .ok out ∧
+      ∃ ls', lr .pop s ls out.events = some ls' ∧ Done out ls' := by
+  have h := pop_refines fuel env inp s stv bl cfg ls hs hstv hblv hst hcfg hpc hinp
+  cases hr : exec fuel Gen.Src.«___cds_wfs_pop» env inp with
+  | error err => rw [hr, Outcome_error] at h; exact absurd h.1 hnn
+  | ok out =>
+    rw [hr, Outcome_ok] at h
+    obtain ⟨ls', h1, h2, -⟩ := h
+    exact ⟨out, rfl, ls', h1, h2⟩
 
 end UrcuVerif.Src.WfsR
